@@ -34,8 +34,10 @@ inductive Hold
   | none | req | r | w
 deriving Repr, DecidableEq
 
+/-- the locks of set number `i`: `A i` = its `applyMutex`, `M i` = the `mutex` of its ordered map -/
 inductive LockId
-  | A | M
+  | A (i : Nat)
+  | M (i : Nat)
 deriving Repr, DecidableEq
 
 inductive Act
@@ -44,37 +46,36 @@ inductive Act
   | req (l : LockId)      -- `Lock()` called: the writer is now pending
   | acq (l : LockId)      -- `Lock()` returns
   | unlock (l : LockId)
-  | read                  -- a read of the map's fields
-  | write                 -- a write of the map's fields
+  | read                  -- a read of the fields of the map whose `M` is held
+  | write                 -- a write of the fields of the map whose `M` is held
 deriving Repr, DecidableEq
 
+/-- A goroutine holds at most one `applyMutex` (`hA` of set `sA`) and at most one map mutex (`hM` of set
+`sM`); the set numbers are 0 while nothing of that class is held. -/
 structure Th where
   hA : Hold
+  sA : Nat
   hM : Hold
+  sM : Nat
   script : List Act
 deriving Repr, DecidableEq
 
-structure Locks where
-  a : RW
-  m : RW
-deriving Repr, DecidableEq
+/-- the state of every lock of every set -/
+abbrev Locks := LockId → RW
 
-def Locks.init : Locks := { a := RW.free, m := RW.free }
+def Locks.init : Locks := fun _ => RW.free
 
-def Locks.get (s : Locks) : LockId → RW
-  | .A => s.a
-  | .M => s.m
-def Locks.put (s : Locks) (l : LockId) (x : RW) : Locks :=
-  match l with
-  | .A => { s with a := x }
-  | .M => { s with m := x }
+def Locks.get (s : Locks) (l : LockId) : RW := s l
+def Locks.put (s : Locks) (l : LockId) (x : RW) : Locks := fun l' => if l' = l then x else s l'
+
 def Th.hold (t : Th) : LockId → Hold
-  | .A => t.hA
-  | .M => t.hM
+  | .A i => if t.sA = i then t.hA else .none
+  | .M i => if t.sM = i then t.hM else .none
+
 def Th.setHold (t : Th) (l : LockId) (h : Hold) : Th :=
   match l with
-  | .A => { t with hA := h }
-  | .M => { t with hM := h }
+  | .A i => { t with hA := h, sA := if h = .none then 0 else i }
+  | .M i => { t with hM := h, sM := if h = .none then 0 else i }
 
 /-- Go semantics of one action.  `strict = true`: a pending writer blocks new readers (writer
 preference, what `sync.RWMutex` guarantees to block on); `strict = false` additionally lets a reader
@@ -112,31 +113,44 @@ def lockSys : Sys Locks Th := { step := lockStep true }
 /-- permissive semantics (used for "reachable") -/
 def lockSysP : Sys Locks Th := { step := lockStep false }
 
-/-- Well-formed scripts: `A` is only acquired while nothing is held, `M` only while `M` is not held
-(rank `A < M`, **no re-entrant acquisition**), `acq` directly follows `req`, releases match, data
-accesses happen under `M`, and nothing is held at the end. -/
-def wfB : Hold → Hold → List Act → Bool
-  | hA, hM, [] => hA == .none && hM == .none
-  | hA, hM, .rlock .A :: r => hA == .none && hM == .none && wfB .r hM r
-  | hA, hM, .req .A :: r => hA == .none && hM == .none && wfB .req hM r
-  | hA, hM, .acq .A :: r => hA == .req && hM == .none && wfB .w hM r
-  | hA, hM, .runlock .A :: r => hA == .r && hM != .req && wfB .none hM r
-  | hA, hM, .unlock .A :: r => hA == .w && hM != .req && wfB .none hM r
-  | hA, hM, .rlock .M :: r => hA != .req && hM == .none && wfB hA .r r
-  | hA, hM, .req .M :: r => hA != .req && hM == .none && wfB hA .req r
-  | hA, hM, .acq .M :: r => hM == .req && wfB hA .w r
-  | hA, hM, .runlock .M :: r => hA != .req && hM == .r && wfB hA .none r
-  | hA, hM, .unlock .M :: r => hA != .req && hM == .w && wfB hA .none r
-  | hA, hM, .read :: r => hA != .req && (hM == .r || hM == .w) && wfB hA hM r
-  | hA, hM, .write :: r => hA != .req && hM == .w && wfB hA hM r
+/-- Well-formed scripts, **for any number of sets**: an `applyMutex` (of whichever set) is only acquired
+while the goroutine holds nothing at all, a map mutex (of whichever set — the receiver's or a source's)
+only while it holds no map mutex; `acq` directly follows `req`; releases match what is held; data
+accesses happen under a map mutex; nothing is held at the end.  Hence: every `applyMutex` has rank 0,
+every map mutex rank 1 and is a leaf — there is no cycle among the locks of one set (no re-entrant
+acquisition) nor across sets. -/
+def wfB : Hold → Nat → Hold → Nat → List Act → Bool
+  | hA, sA, hM, sM, [] => hA == .none && hM == .none && sA == 0 && sM == 0
+  | hA, _, hM, sM, .rlock (.A i) :: r => hA == .none && hM == .none && wfB .r i hM sM r
+  | hA, _, hM, sM, .req (.A i) :: r => hA == .none && hM == .none && wfB .req i hM sM r
+  | hA, sA, hM, sM, .acq (.A i) :: r => hA == .req && sA == i && hM == .none && wfB .w i hM sM r
+  | hA, sA, hM, sM, .runlock (.A i) :: r => hA == .r && sA == i && hM != .req && wfB .none 0 hM sM r
+  | hA, sA, hM, sM, .unlock (.A i) :: r => hA == .w && sA == i && hM != .req && wfB .none 0 hM sM r
+  | hA, sA, hM, _, .rlock (.M j) :: r => hA != .req && hM == .none && wfB hA sA .r j r
+  | hA, sA, hM, _, .req (.M j) :: r => hA != .req && hM == .none && wfB hA sA .req j r
+  | hA, sA, hM, sM, .acq (.M j) :: r => hM == .req && sM == j && wfB hA sA .w j r
+  | hA, sA, hM, sM, .runlock (.M j) :: r => hA != .req && hM == .r && sM == j && wfB hA sA .none 0 r
+  | hA, sA, hM, sM, .unlock (.M j) :: r => hA != .req && hM == .w && sM == j && wfB hA sA .none 0 r
+  | hA, sA, hM, sM, .read :: r => hA != .req && (hM == .r || hM == .w) && wfB hA sA hM sM r
+  | hA, sA, hM, sM, .write :: r => hA != .req && hM == .w && wfB hA sA hM sM r
 
-def WF (hA hM : Hold) (s : List Act) : Prop := wfB hA hM s = true
+def WF (hA : Hold) (sA : Nat) (hM : Hold) (sM : Nat) (s : List Act) : Prop := wfB hA sA hM sM s = true
 
-instance (hA hM : Hold) (s : List Act) : Decidable (WF hA hM s) := by unfold WF; exact inferInstance
+instance (hA : Hold) (sA : Nat) (hM : Hold) (sM : Nat) (s : List Act) : Decidable (WF hA sA hM sM s) := by
+  unfold WF; exact inferInstance
 
-def Th.start (script : List Act) : Th := { hA := .none, hM := .none, script := script }
+/-- well formed from the state in which nothing is held -/
+abbrev WF0 (s : List Act) : Prop := WF .none 0 .none 0 s
+
+def Th.wf (t : Th) : Prop := WF t.hA t.sA t.hM t.sM t.script
+
+def Th.start (script : List Act) : Th := { hA := .none, sA := 0, hM := .none, sM := 0, script := script }
 
 /-! ### lock scripts of the `ds.Set` and `OrderedMap` methods (after the fixes)
+
+`i` is the receiver, `src` the set passed as `ReadableSet` / inside the `SetMutations` argument (it may be the
+receiver itself: `src = i`).  A source only ever contributes its *map mutex*, taken for the duration of one
+step of its `ForEach`/`Range`/`ToSlice`, never while a map mutex of the receiver is held.
 
 Every method of `orderedmap.OrderedMap` has a script: `Head`/`Tail`/`Has`/`Get`/`Size`/`IsEmpty` = `.reader 1`;
 `ForEach`/`ForEachReverse` over a chain of n elements = `.reader (n + 1)` (the lock is released around every
@@ -145,58 +159,76 @@ consumer call); `Set` = `.mapSet`; `Delete` = `.mapDelete found`; `Clear` = `.cl
 `omSet` = `OrderedMap.Set`, `omDelete found` = `OrderedMap.Delete` (its unlocked-section `Get` first;
 `found = false` is the early return), `omRead` = `Has`/`Get`/`Size`/one `ForEach` step. -/
 
-def omSet : List Act := [.req .M, .acq .M, .read, .write, .unlock .M]
-def omRead : List Act := [.rlock .M, .read, .runlock .M]
-def omDelete (found : Bool) : List Act :=
-  omRead ++ (if found then [.req .M, .acq .M, .read, .write, .unlock .M] else [])
-def omClear : List Act := [.req .M, .acq .M, .write, .unlock .M]
+def omSet (i : Nat) : List Act := [.req (.M i), .acq (.M i), .read, .write, .unlock (.M i)]
+def omRead (i : Nat) : List Act := [.rlock (.M i), .read, .runlock (.M i)]
+def omDelete (i : Nat) (found : Bool) : List Act :=
+  omRead i ++ (if found then [.req (.M i), .acq (.M i), .read, .write, .unlock (.M i)] else [])
+def omClear (i : Nat) : List Act := [.req (.M i), .acq (.M i), .write, .unlock (.M i)]
 
 def rep (n : Nat) (l : List Act) : List Act := (List.replicate n l).flatten
+
+/-- the source's `ForEach`/`Range` over `bodies.length` elements: read `head`, then per element the consumer's
+block followed by the locked read of `next` -/
+def forEachOver (src : Nat) (bodies : List (List Act)) : List Act :=
+  omRead src ++ (bodies.map (fun b => b ++ omRead src)).flatten
 
 /-- `OrderedMap.Clone`: one `RLock` held over the whole copy loop; the loop reads the chain directly
 (`currentEntry.next`) and calls `Set` on the *new*, still private map (its lock is uncontended and not
 modelled). -/
-def omClone (n : Nat) : List Act := [.rlock .M] ++ rep n [.read] ++ [.runlock .M]
+def omClone (i n : Nat) : List Act := [.rlock (.M i)] ++ rep n [.read] ++ [.runlock (.M i)]
 
 /-- A `Clone` that iterates through `o.ForEach` while still holding the read lock: every step takes
 `mutex.RLock` again. -/
-def cloneReentrant (n : Nat) : List Act := [.rlock .M] ++ rep n omRead ++ [.runlock .M]
+def cloneReentrant (i n : Nat) : List Act := [.rlock (.M i)] ++ rep n (omRead i) ++ [.runlock (.M i)]
 
-/-- a method call with the data-dependent choices it makes (which `Delete`s find their key) -/
+/-- a method call with its source set(s) and the data-dependent choices it makes (which `Delete`s find their key) -/
 inductive Call
   | add
   | delete (found : Bool)
-  | addAll (n : Nat)                       -- n elements produced by the argument's ForEach
-  | deleteAll (founds : List Bool)
-  | apply (adds : Nat) (dels : List Bool)  -- also `Compute`
-  | replace (prev : Nat) (n : Nat)         -- ToSlice (prev+1 reads), Clear, n Sets, prev Has
-  | reader (steps : Nat)                   -- Has / Size / ForEach / ToSlice / HasAll ...: only `M.RLock`
+  | addAll (src : Nat) (n : Nat)                          -- n elements produced by the source's ForEach
+  | deleteAll (src : Nat) (founds : List Bool)
+  | apply (srcA srcD : Nat) (adds : Nat) (dels : List Bool)  -- also `Compute`
+  | replace (src : Nat) (prev : Nat) (n : Nat)            -- ToSlice (prev+1 reads), source ToSlice (n+1 reads), Clear, n Sets, prev Has
+  | reader (steps : Nat)                                  -- Has / Size / ForEach / ToSlice ...: only `M.RLock`
+  | readerOf (src : Nat) (steps : Nat)                    -- HasAll / Equals / Intersect / Filter: reads of receiver and source
   | clear
-  | mapSet                                 -- `OrderedMap.Set` called directly (Decode, NewSet, users of the map)
-  | mapDelete (found : Bool)               -- `OrderedMap.Delete` called directly
-  | clone (n : Nat)                        -- `OrderedMap.Clone` of a map with n entries
+  | mapSet                                                -- `OrderedMap.Set` called directly (Decode, NewSet, users of the map)
+  | mapDelete (found : Bool)                              -- `OrderedMap.Delete` called directly
+  | clone (n : Nat)                                       -- `OrderedMap.Clone` of a map with n entries
 deriving Repr, DecidableEq
 
-def methodScript : Call → List Act
-  | .add => [.rlock .A] ++ omSet ++ [.runlock .A]
-  | .delete f => [.rlock .A] ++ omDelete f ++ [.runlock .A]
-  | .addAll n => [.rlock .A] ++ rep n omSet ++ [.runlock .A]
-  | .deleteAll fs => [.rlock .A] ++ (fs.map omDelete).flatten ++ [.runlock .A]
-  | .apply n ds => [.req .A, .acq .A] ++ rep n omSet ++ (ds.map omDelete).flatten ++ [.unlock .A]
-  | .replace p n => [.req .A, .acq .A] ++ rep (p + 1) omRead ++ omClear ++ rep n omSet ++ rep p omRead ++ [.unlock .A]
-  | .reader n => rep n omRead
-  | .clear => omClear
-  | .mapSet => omSet
-  | .mapDelete f => omDelete f
-  | .clone n => omClone n
+/-- the script of a call on set `i` -/
+def methodScript (i : Nat) : Call → List Act
+  | .add => [.rlock (.A i)] ++ omSet i ++ [.runlock (.A i)]
+  | .delete f => [.rlock (.A i)] ++ omDelete i f ++ [.runlock (.A i)]
+  | .addAll src n => [.rlock (.A i)] ++ forEachOver src (List.replicate n (omSet i)) ++ [.runlock (.A i)]
+  | .deleteAll src fs => [.rlock (.A i)] ++ forEachOver src (fs.map (omDelete i)) ++ [.runlock (.A i)]
+  | .apply srcA srcD n ds =>
+    [.req (.A i), .acq (.A i)] ++ forEachOver srcA (List.replicate n (omSet i)) ++ forEachOver srcD (ds.map (omDelete i))
+      ++ [.unlock (.A i)]
+  | .replace src p n =>
+    [.req (.A i), .acq (.A i)] ++ rep (p + 1) (omRead i) ++ rep (n + 1) (omRead src) ++ omClear i ++ rep n (omSet i)
+      ++ rep p (omRead i) ++ [.unlock (.A i)]
+  | .reader n => rep n (omRead i)
+  | .readerOf src n => rep n (omRead i ++ omRead src)
+  | .clear => omClear i
+  | .mapSet => omSet i
+  | .mapDelete f => omDelete i f
+  | .clone n => omClone i n
 
 /-- `DeleteAll` before the fix: the callback called `s.Delete`, which takes `applyMutex.RLock` again. -/
-def deleteAllOld (founds : List Bool) : List Act :=
-  [.rlock .A] ++ (founds.map (fun f => [.rlock .A] ++ omDelete f ++ [.runlock .A])).flatten ++ [.runlock .A]
+def deleteAllOld (i : Nat) (founds : List Bool) : List Act :=
+  [.rlock (.A i)] ++ (founds.map (fun f => [.rlock (.A i)] ++ omDelete i f ++ [.runlock (.A i)])).flatten ++ [.runlock (.A i)]
+
+/-- an `AddAll` that also takes the *source's* `applyMutex` for reading ("consistent snapshot"): an
+`applyMutex` acquired while another one is held — re-entrant when the source is the receiver, a lock-order
+cycle between two sets otherwise. -/
+def addAllSourceLocked (i src n : Nat) : List Act :=
+  [.rlock (.A i), .rlock (.A src)] ++ forEachOver src (List.replicate n (omSet i)) ++ [.runlock (.A src), .runlock (.A i)]
 
 def threadDone (t : Th) : Prop := t.script = []
 
-/-- Bool version of `Stuck` for the executable witness -/
+/-- Bool version of `Stuck` (the lock state is a function, so `Stuck` itself is not decidable by `decide`) -/
 def stuckB (c : Cfg Locks Th) : Bool := c.2.all (fun t => (lockSys.step c.1 t).isEmpty)
 
 /-! ## method-level protocol of the single-element operations
@@ -425,7 +457,7 @@ def skeletons : List (String × String) := [
   ("set.DeleteAll", "A.RLock defer:A.RUnlock call:arg.ForEach cb{ call:OrderedMap.Delete }"),
   ("set.Apply", "A.Lock defer:A.Unlock call:apply"),
   ("set.Compute", "A.Lock defer:A.Unlock cb call:apply"),
-  ("set.Replace", "A.Lock defer:A.Unlock call:ToSlice call:Clear call:arg.Range cb{ call:Set } loop{ call:Has }"),
+  ("set.Replace", "A.Lock defer:A.Unlock call:ToSlice call:arg.ToSlice call:Clear loop{ call:Set } loop{ call:Has }"),
   ("set.apply", "call:arg.Range cb{ call:Set } call:arg.Range cb{ call:OrderedMap.Delete }"),
   ("OrderedMap.Set", "M.Lock defer:M.Unlock"),
   ("OrderedMap.Delete", "call:Get M.Lock defer:M.Unlock"),
